@@ -8,7 +8,8 @@
 //!
 //! Case descriptor (emitted by MCPowerFlow.tla or by `gen`), every quantity Q-encoded:
 //! {"cfg":{"kind":"conv"|"bel","rfc","rgen","redrv","rres","floor","lag","aux","auxkd","idle",
-//!         "kf","kg","ke","kr","flat","cap","smin","slo","shi","smax","delta","ps","ds","lat","assert"},
+//!         "kf","kg","ke","kr","flat","cap","smin","slo","shi","smax","delta","ps","ds","lat","assert",
+//!         "pb0","haux","split2","gssr","gssk"},   kind "hyb" = HybridLoco (fc + gen + res + edrv)
 //!  "soc0":..,"steps":[{"eng":bool,"dt":dtq,"cls":"pub"},..],
 //!  "maps":{..build::loco map parameters, floats..}?, "temp":..?}
 //! power = q/ps W, dt = dtq/ds s, energy = q/(ps*ds) J, soc = soc_q/cap_q.
@@ -23,6 +24,7 @@ use altrios_core::consist::locomotive::powertrain::reversible_energy_storage::Re
 use altrios_core::consist::locomotive::{LocomotiveState, PowertrainType};
 use altrios_core::consist::LocoTrait;
 use altrios_core::prelude::*;
+use altrios_core::traits::SerdeAPI;
 use altrios_core::uc;
 use avh::build;
 use avh::common::*;
@@ -270,7 +272,7 @@ fn loco_params(desc: &Value) -> (Value, Sc) {
 /// Builds the unit of a case.  conv / bel through avh::build::loco; a hybrid is assembled from the components of
 /// a conv and a bel unit built from the same parameters (HybridLoco = fc + gen + res + edrv) with the fixed split
 /// `cfg.split2 / 2` (fuel_res_ratio = None) or, for generated cases, the golden-section mode
-/// (desc.hyb = {"ratio":r,"gss":k}).  `cfg.pb0` = shaft power before the first step (a warmed-up engine).
+/// (cfg.gssr = 2 * fuel_res_ratio, cfg.gssk = gss_interval).  `cfg.pb0` = shaft power before the first step (a warmed-up engine).
 fn build_unit(desc: &Value, params: &Value, sc: &Sc) -> anyhow::Result<Locomotive> {
     let c = &desc["cfg"];
     let kind = gs(c, "kind");
@@ -284,9 +286,11 @@ fn build_unit(desc: &Value, params: &Value, sc: &Sc) -> anyhow::Result<Locomotiv
         let mut v = serde_json::to_value(&conv)?;
         let cv = v["loco_type"]["ConventionalLoco"].clone();
         let bv = serde_json::to_value(&bel)?["loco_type"]["BatteryElectricLoco"]["res"].clone();
-        let h = desc.get("hyb");
-        let ratio = h.and_then(|x| x.get("ratio")).cloned().unwrap_or(Value::Null);
-        let gss = h.and_then(|x| x.get("gss")).cloned().unwrap_or(Value::Null);
+        // cfg.gssr = 2 * fuel_res_ratio (0 = None: fixed split), cfg.gssk = gss_interval (0 = None)
+        let gssr = c.get("gssr").and_then(|x| x.as_f64()).unwrap_or(0.0);
+        let gssk = c.get("gssk").and_then(|x| x.as_i64()).unwrap_or(0);
+        let ratio = if gssr > 0.0 { json!(gssr / 2.0) } else { Value::Null };
+        let gss = if gssk > 0 { json!(gssk) } else { Value::Null };
         v["loco_type"] = json!({"HybridLoco": {"fc": cv["fc"], "gen": cv["gen"], "res": bv, "edrv": cv["edrv"],
             "fuel_res_split": gf(c, "split2") / 2.0, "fuel_res_ratio": ratio, "gss_interval": gss, "dt": 0.0, "i": 1}});
         let mut l: Locomotive = serde_json::from_value(v)?;
@@ -458,21 +462,46 @@ fn map1d(r: &mut Rng) -> (Vec<f64>, Vec<f64>) {
 fn gen(seed: u64, n: usize, tier: &str) -> Vec<Value> {
     let mut out = vec![];
     let maxsteps = if tier == "quick" { 48 } else { 160 };
+    // rating families <<fc, gen, edrv, res>>: base units and one where each component in turn is the binding one
+    const TOY: [(i64, i64, i64, i64); 8] = [
+        (256, 192, 128, 256), // base: engine while ramping, then generator or drivetrain
+        (256, 256, 256, 256), // engine rating binds once warm (kg > 1) / battery = drivetrain
+        (256, 48, 128, 256),  // generator binds from the first step
+        (256, 192, 16, 256),  // drivetrain binds
+        (64, 192, 128, 256),  // engine smallest
+        (256, 192, 128, 64),  // battery rating below the drivetrain's
+        (256, 192, 32, 256),  // drivetrain far below the battery
+        (256, 96, 64, 128),
+    ];
+    const HYB: [(i64, i64, i64, i64); 5] = [
+        (256, 192, 128, 128),
+        (256, 128, 256, 64), // generator (minus its 50 kW) + battery below the drivetrain
+        (128, 192, 64, 128), // drivetrain binds
+        (256, 96, 128, 128), // generator barely above its hard-coded aux
+        (128, 256, 256, 256), // engine binds
+    ];
     for k in 0..n {
         let mut r = Rng::new(seed.wrapping_mul(1_000_003).wrapping_add(k as u64));
-        let bel = k % 2 == 1;
-        let flat = k % 4 < 2; // lattice-style flat unit (Level B comparable) / mapped unit
+        let kind = ["conv", "bel", "conv", "bel", "hyb", "hyb"][k % 6];
+        let (bel, hyb) = (kind == "bel", kind == "hyb");
+        let flat = k % 6 < 2 || k % 6 == 4; // flat unit (Level B comparable on the lattice) / mapped unit
         let ds = 4i64;
-        let steps_n = r.range(8, maxsteps);
+        let um = if hyb { 1024i64 } else { 1 }; // hybrids are real-sized: their generator carries a hard-coded 50 kW
+        let steps_n = if hyb { r.range(6, maxsteps / 4 + 6) } else { r.range(8, maxsteps) };
         // ratings in watts
-        let (rfc, rgen, redrv, rres) = if flat {
-            (256, *r.pick(&[192i64, 256]), *r.pick(&[128i64, 256]), 256)
+        let (rfc, rgen, redrv, rres) = if hyb {
+            let f = *r.pick(&HYB);
+            (f.0 * um, f.1 * um, f.2 * um, f.3 * um)
+        } else if flat {
+            *r.pick(&TOY)
         } else {
             (r.range(16, 256) * 16, r.range(16, 256) * 16, r.range(16, 256) * 16, r.range(16, 256) * 16)
         };
+        let warm = !bel && r.chance(1, 3);
         let rmax = rfc.max(rres);
-        // scale: cumulative fuel energy <= 4.1 * rating * 4 s * steps must stay below 2^28 units
-        let emax = 4.2 * rmax as f64 * 4.0 * steps_n as f64 + 1.0;
+        let dts: &[i64] = if hyb { &[1, 2, 2, 4, 4, 8] } else { &[1, 2, 2, 4, 4, 8, 16] };
+        // scale: cumulative fuel energy <= 4.2 * rating * dt_max * steps must stay below 2^28 units
+        let emax = 4.2 * rmax as f64 * (if hyb { 2.0 } else { 4.0 }) * steps_n as f64 + 1.0;
         let mut ps = 65536i64;
         while (ps * ds) as f64 * emax >= (1u64 << 28) as f64 && ps > 1 {
             ps /= 2;
@@ -482,11 +511,17 @@ fn gen(seed: u64, n: usize, tier: &str) -> Vec<Value> {
         let (kf, kg, ke, kr) = (pick_k(&mut r), pick_k(&mut r), pick_k(&mut r), pick_k(&mut r));
         let lag = if flat { *r.pick(&[2i64, 4, 16]) } else { r.range(1, 30) };
         let floor_w = if flat || r.chance(1, 2) { rfc as f64 / 4.0 } else { rfc as f64 / 10.0 };
-        let aux_w = if flat { *r.pick(&[0.0, 2.0]) } else { r.range(0, (rmax / 64).max(1)) as f64 };
-        let auxkd = *r.pick(&[0i64, 0, 8, 32, 64]);
-        let idle_w = if flat { 4.0 } else { r.range(0, rfc / 32) as f64 };
+        let aux_w = if hyb {
+            *r.pick(&[0.0, 8192.0, 50000.0])
+        } else if flat {
+            *r.pick(&[0.0, 2.0])
+        } else {
+            r.range(0, (rmax / 64).max(1)) as f64
+        };
+        let auxkd = if hyb { 0 } else { *r.pick(&[0i64, 0, 8, 32, 64]) };
+        let idle_w = if hyb { 4096.0 } else if flat { 4.0 } else { r.range(0, rfc / 32) as f64 };
         // battery: capacity such that the derating ramps are W = width * cap joules wide
-        let cap_j = if flat { 4096.0 } else { (rres * *r.pick(&[8i64, 16, 64])) as f64 };
+        let cap_j = if flat { 16.0 * rres as f64 } else { (rres * *r.pick(&[8i64, 16, 64])) as f64 };
         let (smin, slo, shi, smax) = if flat || r.chance(1, 2) { (2, 6, 10, 14) } else { (1, 3, 12, 15) };
         let cap_q = cap_j * es as f64;
         let soc16 = if r.chance(1, 4) { smin } else { r.range(smin, smax) };
@@ -505,7 +540,7 @@ fn gen(seed: u64, n: usize, tier: &str) -> Vec<Value> {
             maps.insert("eta_gen".into(), json!(eg));
             maps.insert("frac_edrv".into(), json!(xe));
             maps.insert("eta_edrv".into(), json!(ee));
-            if bel {
+            if bel || hyb {
                 // 3-D battery map: temperature x SOC x C-rate (1 C = cap_j/3600 W); axes narrower than
                 // the states visited, so that interp3d's clamping is exercised on every axis
                 let c1 = rres as f64 / (cap_j / 3600.0);
@@ -519,6 +554,10 @@ fn gen(seed: u64, n: usize, tier: &str) -> Vec<Value> {
                 temp = *r.pick(&[-10.0, 0.0, 10.0, 25.0, 40.0, 60.0]);
             }
         }
+        // hybrid control: fixed split (Level B comparable) or the golden-section search on fuel_res_ratio
+        let split2 = r.range(0, 2);
+        let gss = hyb && (!flat || r.chance(1, 3));
+        let (gssr, gssk) = if gss { (*r.pick(&[1i64, 2, 6]), *r.pick(&[1i64, 3, 60])) } else { (0, 0) };
         // demand programme: phases of limit riding, partial load, braking / regen, engine-off idling
         let mut steps = vec![];
         let riding = r.chance(1, 2);
@@ -526,11 +565,11 @@ fn gen(seed: u64, n: usize, tier: &str) -> Vec<Value> {
             let phase = r.range(0, 9);
             let len = r.range(1, 12);
             for _ in 0..len {
-                let dt = *r.pick(&[1i64, 2, 2, 4, 4, 8, 16]);
+                let dt = *r.pick(dts);
                 let (eng, cls): (bool, String) = match phase {
                     0..=3 if riding => (true, r.pick(&["pub", "pub", "pubm", "pubp", "f7"]).to_string()),
                     0..=3 => (true, format!("f{}", r.range(0, 8))),
-                    4 => (true, r.pick(&["pub", "pubp", "over", "f8", "f4"]).to_string()),
+                    4 => (true, r.pick(&["pub", "pubp", "over", "f8", "f4", "rate", "ratep"]).to_string()),
                     5 => (true, format!("r{}", r.range(1, 8))),
                     6 => (true, r.pick(&["regen", "regenm", "regenp", "dyn", "dynp", "b8", "b2"]).to_string()),
                     7 => (false, r.pick(&["zero", "zero", "b1", "b4", "f1", "regen"]).to_string()),
@@ -542,16 +581,19 @@ fn gen(seed: u64, n: usize, tier: &str) -> Vec<Value> {
         }
         steps.truncate(steps_n as usize);
         let q = |w: f64| (w * ps as f64).round() as i64;
+        let delta = if hyb { 2 * ps } else { (ps / 16).max(1) };
         let cfg = json!({
-            "kind": if bel {"bel"} else {"conv"},
+            "kind": kind,
             "rfc": q(rfc as f64), "rgen": q(rgen as f64), "redrv": q(redrv as f64), "rres": q(rres as f64),
             "floor": q(floor_w), "lag": lag, "aux": q(aux_w), "auxkd": auxkd, "idle": q(idle_w),
             "kf": keff.0, "kg": keff.1, "ke": keff.2, "kr": keff.3, "flat": flat,
             "cap": cap_q as i64, "smin": (cap_q as i64 / 16) * smin, "slo": (cap_q as i64 / 16) * slo,
             "shi": (cap_q as i64 / 16) * shi, "smax": (cap_q as i64 / 16) * smax,
-            "delta": (ps / 16).max(1), "ps": ps, "ds": ds, "lat": flat && ps >= 16, "assert": true});
+            "delta": delta, "ps": ps, "ds": ds, "lat": flat && !gss && (hyb || ps >= 16), "assert": true,
+            "pb0": if warm { q(rfc as f64) } else { 0 }, "haux": if hyb { 50000 * ps } else { 0 }, "split2": split2,
+            "gssr": gssr, "gssk": gssk});
         let mut d = json!({"src":"gen","seed":seed,"k":k,"cfg":cfg,
-            "soc0": if bel { (cap_q as i64 / 16) * soc16 } else { 0 },"steps":steps});
+            "soc0": if bel || hyb { (cap_q as i64 / 16) * soc16 } else { 0 },"steps":steps});
         if !flat {
             d["maps"] = Value::Object(maps);
             d["temp"] = json!(temp);
